@@ -19,7 +19,7 @@ import json, math, os, shutil, signal, socket, sqlite3, subprocess, sys, threadi
 from concurrent.futures import ThreadPoolExecutor
 
 GROUPS_D1090 = {"C06": ["positions", "moving"], "C07": ["positions", "kinds"]}
-GROUPS = {"C06": ["positions"], "C07": ["positions", "kinds"], "C10": ["dedup"], "C11": ["kinds"], "C12": ["positions", "kinds"]}
+GROUPS = {"C06": ["positions", "positions-slow"], "C07": ["positions", "kinds"], "C10": ["dedup"], "C11": ["kinds"], "C12": ["positions", "kinds"]}
 
 
 def haversine_m(lat1, lon1, lat2, lon2):
@@ -166,7 +166,12 @@ def run_scenario(exe, cat, sc, scratch, idx):
             heartbeat(); time.sleep(0.02)
             for n, e in enumerate(sc["events"]):
                 pause(e["dt"])
-                sock.sendto(beast(e["hex"], n + 1), ("127.0.0.1", uports[e["sensor"]]))
+                stamp = n + 1
+                if "gnss" in e:
+                    # Radarcape form: seconds of the UTC day << 30 | nanoseconds, from the receiver's own clock
+                    sod = (r.t0 + e["gnss"]) % 86400.0
+                    stamp = (int(sod) << 30) | int((sod % 1.0) * 1e9)
+                sock.sendto(beast(e["hex"], stamp), ("127.0.0.1", uports[e["sensor"]]))
                 time.sleep(0.0015)
             time.sleep(0.03)
             k_end = heartbeat()
@@ -216,7 +221,7 @@ def decode1090_scenarios(scs):
     variant leaves 700 s between the third and the fourth report of each aircraft)"""
     out = []
     for sc in scs:
-        if sc["group"] not in ("positions", "kinds", "moving") or sc["options"]["df_filter"] or sc["options"]["aircraft_filter"] or sc["options"]["via"] != "cli":
+        if sc["name"].startswith("gnss-clock") or sc["group"] not in ("positions", "kinds", "moving") or sc["options"]["df_filter"] or sc["options"]["aircraft_filter"] or sc["options"]["via"] != "cli":
             continue
         for si, sensor in enumerate(sc["sensors"]):
             ev = [e for e in sc["events"] if e["sensor"] == si]
